@@ -61,6 +61,18 @@ CLAIMS = {
         "note": "Trusted: that the documented closed forms are the minimisers (convex analysis), numpy sort/cumsum/eigh/clip. E3 equality is sound but incomplete: an algebraically "
                 "different yet equivalent rewrite outside the axioms of DESIGN 2.3 would be reported.",
     },
+    "C15": {
+        "engine": "E6 paths, E3 value numbering, E2 effects",
+        "category": "other",
+        "technique": "static analysis: who-may-write on the iteration counter; value numbering of every _done into a disjunction; proportionality test (canonical terms) between the stopping measure and the change of each in-place solution array; path rules on Alg.update and App.run",
+        "text": "Decides that only Alg.update advances iter (by one, after _update), that all _done definitions contain the budget test with >=, that every tolerance-based "
+                "stopping measure which is a norm of state differences contains the change of every caller-provided solution array the update rewrites in place (so stopping at tol=0 "
+                "means nothing moved), that other early exits are breakdown flags set before an early return, that App.run performs one update per guarded iteration and returns "
+                "_output(), and that PowerMethod normalises by the quantity it reports. These hold for every problem instance and call interleaving because they are facts about all paths.",
+        "design_ref": "DESIGN.md section 4 C15",
+        "note": "Not decided: monotonicity/upper bound of the power-iteration estimate (numerical). Optimality-residual measures (CG sqrt<r,z>, Newton decrement, GS misfit) are accepted as "
+                "fixed-point certificates by their mathematics. SDMM's eps criterion is outside the tol clause and skipped with an INFO line.",
+    },
     "C12": {
         "engine": "E3 value numbering + E2 alias analysis",
         "category": "other",
